@@ -7,6 +7,7 @@ import (
 	"math/rand"
 	"net"
 	"sort"
+	"strings"
 	"time"
 
 	"github.com/anacrolix/dht/v2"
@@ -265,4 +266,32 @@ func exhaustive(tr *sim.Trace, seed int64, maxTrans int, nosec bool, maxStates i
 		}
 	}
 	return
+}
+
+func parseXev(s string) xev {
+	var e xev
+	f := strings.Split(s, "/")
+	if len(f) != 5 {
+		fail("bad event %q", s)
+	}
+	e.kind = f[0]
+	fmt.Sscan(f[1], &e.p)
+	e.ro, e.matched, e.drop = f[2] == "true", f[3] == "true", f[4] == "true"
+	return e
+}
+
+// exhReplay re-executes one transition of the exhaustive exploration: path "[e1 e2 ...]" then ev.
+func exhReplay(tr *sim.Trace, seed int64, nosec bool, path, ev string) {
+	w := newXWorld(rand.New(rand.NewSource(seed)), nosec)
+	h := w.newServer(tr, 0)
+	defer h.srv.Close()
+	for _, t := range strings.Fields(strings.Trim(path, "[]")) {
+		w.apply(h, parseXev(t), false)
+	}
+	_, pre := h.stateKey()
+	if pre == nil {
+		pre = []sim.M{}
+	}
+	tr.Emit(sim.M{"seg": 0, "e": "SetState", "root": sim.Hex(w.root[:]), "nosec": w.nosec, "pre": pre, "path": path, "ev": ev})
+	w.apply(h, parseXev(ev), true)
 }
